@@ -21,12 +21,12 @@ fn argument<'a>(args: &'a [String], name: &str) -> Option<&'a str> {
     args.iter().position(|a| a == name).and_then(|i| args.get(i + 1)).map(String::as_str)
 }
 
-fn scratch_dir(tag: &str) -> PathBuf {
-    let base = if std::path::Path::new("/dev/shm").is_dir() { "/dev/shm" } else { "/verif/scratch" };
-    // fixed-width name: both sides of a run and all runs have equally long prefixes
-    let dir = PathBuf::from(base).join(format!("zysim-{:>08}-{tag}", std::process::id()));
+/// A replay runs in the very directory the original run used (paths are part of the execution).
+fn replay_dir(value: &Value) -> PathBuf {
+    let dir = PathBuf::from(value["run_dir"].as_str().unwrap_or("/dev/shm/zysim/replay"));
+    let _ = std::fs::remove_dir_all(&dir);
     std::fs::create_dir_all(&dir).expect("create scratch directory");
-    dir.canonicalize().expect("canonical scratch directory")
+    dir
 }
 
 /// Execute one explicit history in a forked child; returns the child's JSON record.
@@ -192,7 +192,6 @@ fn run(args: &[String]) {
     let out = argument(args, "--out").expect("--out").to_string();
     let log_events = argument(args, "--events").is_some();
     let thorough = tier == "thorough";
-    let run_dir = scratch_dir(&format!("{shard:02}"));
     let focus_tag = if focus == "C09" { 9 } else { 15 };
 
     let mut totals_runs = 0u64;
@@ -220,6 +219,7 @@ fn run(args: &[String]) {
         let faults = index % 2 == 1;
         let generated = generate::history(seed_i, &focus, faults, thorough);
         let key = mix(seed_i, 77, 0);
+        let run_dir = zysim_common::run_directory(&format!("session{focus_tag}"), seed, index);
         let mut record = match run_child(&run_dir, key, &generated.config, &generated.ops, &focus) {
             | Ok(record) => record,
             | Err(message) => {
@@ -304,6 +304,7 @@ fn run(args: &[String]) {
                 violations.push(json!({
                     "property": property, "engine": "sessionsim", "class": class, "focus": focus,
                     "seed": seed.to_string(), "run_index": index, "run_seed": seed_i.to_string(), "key": key.to_string(),
+                    "run_dir": run_dir.to_string_lossy(),
                     "history": history_json(&generated.config, &final_ops),
                     "original_length": generated.ops.len(),
                     "violation": final_detail,
@@ -313,9 +314,9 @@ fn run(args: &[String]) {
                 violations.push(json!({"property": property, "class": class, "run_index": index, "unminimised": true}));
             }
         }
+        let _ = std::fs::remove_dir_all(&run_dir);
         index += shards;
     }
-    let _ = std::fs::remove_dir_all(&run_dir);
     let record = json!({
         "shard": shard, "shards": shards, "tier": tier, "seed": seed.to_string(), "focus": focus,
         "runs": totals_runs, "ops_executed": ops_executed, "ops_skipped_by_precondition": ops_skipped,
@@ -343,7 +344,7 @@ fn replay(path: &str) {
         .collect();
     let key: u64 = value["key"].as_str().and_then(|s| s.parse().ok()).unwrap_or(1);
     let focus = value["focus"].as_str().unwrap_or("both").to_string();
-    let run_dir = scratch_dir("rp");
+    let run_dir = replay_dir(&value);
     let record = run_child(&run_dir, key, &config, &ops, &focus).expect("child record");
     let _ = std::fs::remove_dir_all(&run_dir);
     for event in record["events"].as_array().into_iter().flatten() {
@@ -373,7 +374,7 @@ fn log_one(args: &[String]) {
     let seed_i = mix(seed, ENGINE * 100 + focus_tag, index);
     let generated = generate::history(seed_i, &focus, index % 2 == 1, tier == "thorough");
     let key = mix(seed_i, 77, 0);
-    let run_dir = scratch_dir("lg");
+    let run_dir = zysim_common::run_directory(&format!("session{focus_tag}"), seed, index);
     let record = run_child(&run_dir, key, &generated.config, &generated.ops, &focus).expect("child record");
     let _ = std::fs::remove_dir_all(&run_dir);
     println!("{}", serde_json::to_string(&json!({"config": generated.config.to_json(), "record": record})).unwrap());
